@@ -2,7 +2,7 @@
    Statements only; proofs in Parse_proofs.v. [serve] is the model of readPacket + the parsers +
    the dispatch of BaseClient.serve on a byte stream; a Go panic is the explicit outcome
    [Panic]/[EndPanic]; [EvAlloc n] records every make([]byte, n) for a packet body. *)
-From MQ Require Import Base Codec Inbound Parse ParseSpec Parse_proofs ParsePending ParsePending_proofs ParseExit ParseExit_proofs.
+From MQ Require Import Base Codec Inbound Parse ParseSpec Parse_proofs ParsePending ParsePending_proofs ParseExit ParseExit_proofs ParseResub ParseResub_proofs.
 Open Scope N_scope.
 
 (* for every byte string handed to each packet parser: no panic *)
@@ -155,6 +155,22 @@ Theorem C06_close_before_done : forall e l,
   state_at_close link0 (exit_steps e) = Some l -> lk_done l = false.
 Proof. exact close_entered_before_done. Qed.
 
+(* bytes of a SUBACK never reach the SUBSCRIBE encoder (whose Pack panics for a QoS outside 0..2):
+   what a RetryClient asks for again after a reconnection is a function of the application's
+   Subscribe arguments only — for EVERY history of Subscribe calls answered with ANY return codes
+   (0x80, reserved values, any count) ... *)
+Theorem C06_resubscription_ignores_suback : forall ops1 ops2 est,
+  map fst ops1 = map fst ops2 -> rc_history est ops1 = rc_history est ops2.
+Proof. exact rc_history_ignores_codes. Qed.
+
+(* ... so, the application having asked for QoS 0..2, no request of Resubscribe makes Pack panic
+   on the RetryClient's task goroutine ([ex_refused_then_resubscribed]: asking for a granted 0x80
+   again would) *)
+Theorem C06_resubscribe_never_panics : forall ops id req,
+  Forall (fun op => Forall qos_ok (fst op)) ops ->
+  In req (resubscribe (rc_history [] ops)) -> sub_pack id req <> Panic.
+Proof. exact resubscribe_never_panics. Qed.
+
 Print Assumptions C06_parsers_no_panic.
 Print Assumptions C06_no_panic.
 Print Assumptions C06_fuel_irrelevant.
@@ -178,3 +194,5 @@ Print Assumptions C06_malformed_iff_protocol_error.
 Print Assumptions C06_prefix_processed_normally.
 Print Assumptions C06_error_observable_when_done.
 Print Assumptions C06_close_before_done.
+Print Assumptions C06_resubscription_ignores_suback.
+Print Assumptions C06_resubscribe_never_panics.
